@@ -226,10 +226,16 @@ def r5(run):
                     run.ob("%s|live|no-hand-off-no-live" % C.READ, not bad, live.blocks[bb]["term"]["sp"], "without a hand-off the live task delivers nothing", reason="live-without-hand-off")
 
 
+def r6(run):
+    from . import C11 as c11
+    c11.r7(run)
+
+
 RULES = [
     ("R-C03-1", "the broadcast subscription is taken in the read body, cannot follow the scan launch, and is the one the live task polls", r1),
     ("R-C03-2", "live dedupe: deliver exactly when frame.id > last scanned id; the comparison dominates every delivery", r2),
     ("R-C03-3", "append: store, then broadcast (ephemeral: broadcast only)", r3),
     ("R-C03-4", "history: scan, then threshold (following, no limit), then done - nothing after done", r4),
     ("R-C03-5", "the live task starts receiving only after the hand-off (or in tail mode)", r5),
+    ("R-C03-6", "no silent gap: a receive error of the broadcast subscription ends the stream (shared with R-C11-7)", r6),
 ]
